@@ -81,6 +81,22 @@ def handle : Handler := fun op args =>
   -- object histories: one object, a sequence of member calls, every observer's value
   | "c04.vhist" => withArgs (do let v ← pRats; let ops ← pList pVOp; pure (v, ops)) args fun (v, ops) => ansL (vRun v ops)
   | "c04.mhist" => withArgs (do let a ← pMat; let ops ← pList pMOp; pure (a, ops)) args fun (a, ops) => ansL (mRun a ops)
+  -- chained compound assignment: signs, x, then one operand per sign.  Answer: x after the whole chain,
+  -- the value of the first step's expression, x after the first step alone
+  | "c04.mchain" => withArgs (do let sg ← tok; let x ← pMat; let bs ← pMany pMat sg.length; pure (sg, x, bs)) args fun (sg, x, bs) =>
+      let steps := (sg.toList.map (· == '+')).zip bs
+      if sg.toList.any (fun c => c ≠ '+' ∧ c ≠ '-') ∨ steps.isEmpty then "bad-args" else
+      match mChain x steps, mChain x (steps.take 1) with
+      | .ok y, .ok y1 => "ok " ++ showMat y ++ " " ++ showMat y1 ++ " " ++ showMat y1
+      | .error .undef, _ => "undef"
+      | _, _ => "err"
+  | "c04.vchain" => withArgs (do let sg ← tok; let x ← pRats; let bs ← pMany pRats sg.length; pure (sg, x, bs)) args fun (sg, x, bs) =>
+      let steps := (sg.toList.map (· == '+')).zip bs
+      if sg.toList.any (fun c => c ≠ '+' ∧ c ≠ '-') ∨ steps.isEmpty then "bad-args" else
+      match vChain x steps, vChain x (steps.take 1) with
+      | .ok y, .ok y1 => "ok " ++ showVec y ++ " " ++ showVec y1 ++ " " ++ showVec y1
+      | .error .undef, _ => "undef"
+      | _, _ => "err"
   | "c04.plus" => withArgs (do let s ← pSp; let a ← pMat; let b ← pMat; pure (s, a, b)) args fun (s, a, b) =>
       if s = "a" then ansM (plusAssign a b) else if s = "m" ∨ s = "o" then ansM (plus a b) else "bad-args"
   | "c04.minus" => withArgs (do let s ← pSp; let a ← pMat; let b ← pMat; pure (s, a, b)) args fun (s, a, b) =>
